@@ -16,7 +16,7 @@ R5 the creation step that receives the caller's **kwargs is the first creation s
 """
 import ast
 
-from ..core import AnalysisError, norm, loc, walk_no_nested, attr_chain, call_name, kwarg
+from ..core import AnalysisError, norm, loc, walk_no_nested, attr_chain, call_name, kwarg, func_params
 from ..cfg import CFG
 from ..normalize import inline, local_env, expand, ctext, canon, conjuncts, _enclosing
 from .. import nxgraph as nxg
@@ -149,6 +149,15 @@ def stmt_is_rejecting(st, cls, summ):
         if callee and callee in summ.rej:
             return f'{callee[0]}.{callee[1]}() can reject'
     return None
+
+
+def _anc9(node, fn):
+    out = []
+    p = getattr(node, '_parent', None)
+    while p is not None and p is not fn:
+        out.append(p)
+        p = getattr(p, '_parent', None)
+    return out
 
 
 def run(prog, rep):
@@ -338,6 +347,90 @@ def run(prog, rep):
     guard = [n for n in ast.walk(ci) if isinstance(n, ast.If) and 'peer' in ast.unparse(n.test) and any(isinstance(x, ast.Raise) for x in n.body)]
     if not guard:
         rep.violation('R2', loc(nmod, ci), 'NetworkService.connect_interface', 'no already-connected guard', 'an interface that already has a peer must be refused')
+
+    # ---- R10: the graph-level deep writers refuse, before their first insertion, what would make them fail half way ----
+    rep.rule('R10', 'a deep graph writer checks the parent and every node id of the sliver tree before its first insertion', floor=4)
+    apg10 = prog.cls('fim.graph.abc_property_graph:ABCPropertyGraph')
+    CONTAINERS10 = ('attached_components_info', 'network_service_info', 'interface_info')
+    DEEP = ('add_network_node_sliver', 'add_component_sliver', 'add_network_service_sliver', 'add_interface_sliver')
+    direct = {}
+    inl10 = {}
+    for w in DEEP:
+        f0 = apg10.methods.get(w)
+        if f0 is None:
+            raise AnalysisError(f'deep writer {w} vanished')
+        fi = inline(prog, apg10, f0, depth=4)
+        inl10[w] = fi
+        env10 = local_env(fi)
+        cs_, kids_ = set(), set()
+        for l in [n for n in ast.walk(fi) if isinstance(n, ast.For)]:
+            called = {call_name(c) for c in ast.walk(l) if isinstance(c, ast.Call) and call_name(c) in DEEP}
+            if called:
+                kids_ |= called
+                cs_ |= {x.attr for x in ast.walk(expand(l.iter, env10)) if isinstance(x, ast.Attribute) and x.attr in CONTAINERS10}
+        direct[w] = (cs_, kids_)
+
+    def needed(w, seen=()):
+        cs_, kids_ = direct[w]
+        out = set(cs_)
+        for k_ in kids_:
+            if k_ not in seen:
+                out |= needed(k_, seen + (w,))
+        return out
+    for w in DEEP:
+        fi = inl10[w]
+        wcfg = CFG(fi)
+        wdom = wcfg.dominators()
+        adds = [c for c in walk_no_nested(fi) if isinstance(c, ast.Call) and call_name(c) == 'add_node']
+        if not adds:
+            raise AnalysisError(f'{w}: no add_node call')
+        first = min(adds, key=lambda c: (c.lineno, c.col_offset))
+        fnode = flow.node_of(wcfg, first)
+        pparams = [p_ for p_ in func_params(fi) if 'parent' in p_]
+        links_parent = any(isinstance(c, ast.Call) and call_name(c) == 'add_link' and pparams and
+                           any(isinstance(x, ast.Name) and x.id == pparams[0] for x in ast.walk(c)) for c in walk_no_nested(fi))
+        need = needed(w)
+
+        def dominating(c):
+            n_ = flow.node_of(wcfg, c)
+            if n_ is not None and fnode is not None and n_.id in wdom.get(fnode.id, set()):
+                return True
+            # a probe inside a loop: the loop header must dominate
+            for l in [p_ for p_ in _anc9(c, fi) if isinstance(p_, ast.For)]:
+                hn = [nd for nd in wcfg.nodes if nd.kind == 'test' and nd.tag == 'for' and nd.ast is l]
+                if hn and fnode is not None and hn[0].id in wdom.get(fnode.id, set()):
+                    return True
+            return False
+        probes = [c for c in walk_no_nested(fi) if isinstance(c, ast.Call) and call_name(c) in ('get_node_properties', 'node_exists', '_find_node') and
+                  (c.lineno, c.col_offset) < (first.lineno, first.col_offset) or
+                  (isinstance(c, ast.Call) and call_name(c) in ('get_node_properties', 'node_exists', '_find_node') and getattr(c, '_src_fn', None) is not None)]
+        def guarded_by_parent_only(c):
+            # a probe of the parent under "the parent is given" is as good as unconditional: no parent, no link
+            if not pparams:
+                return False
+            _, cs9 = _enclosing(c, fi)
+            cjs9 = [ctext(cj) for c_ in cs9 for cj in conjuncts(canon(c_))]
+            if not cjs9 or any(t_ != f'{pparams[0]} is not None' for t_ in cjs9):
+                return False
+            ifs9 = [p_ for p_ in _anc9(c, fi) if isinstance(p_, ast.If)]
+            tn = flow.node_of(wcfg, ifs9[-1].test) if ifs9 else None
+            return tn is not None and fnode is not None and tn.id in wdom.get(fnode.id, set())
+        probes = [c for c in probes if dominating(c) or guarded_by_parent_only(c)]
+        parent_ok = (not links_parent) or any(any(isinstance(x, ast.Name) and x.id == pparams[0] for x in ast.walk(c)) for c in probes)
+        tree_probe = [c for c in probes if any(isinstance(p_, ast.For) for p_ in _anc9(c, fi))]
+        region_consts = {x.value for x in ast.walk(fi) if isinstance(x, ast.Constant) and isinstance(x.value, str)} | \
+            {x.attr for x in ast.walk(fi) if isinstance(x, ast.Attribute)}
+        ids_ok = (not need and not direct[w][1]) or (bool(tree_probe) and need <= region_consts and
+                                                      any(isinstance(r_, ast.Raise) for c in tree_probe for l in _anc9(c, fi) if isinstance(l, ast.For) for r_ in ast.walk(l)))
+        rep.instance('R10', f'{w}: links to its parent: {links_parent} (parent probed first: {parent_ok}); nested containers written {sorted(need)} (ids probed first: {ids_ok})')
+        if not parent_ok:
+            rep.violation('R10', loc(apg10.module, first), f'ABCPropertyGraph.{w}', 'parent not verified before the insertion',
+                          f'{w} inserts the element and then links it to `{pparams[0]}`; when that parent is not in the graph (a stale handle) the '
+                          f'link is refused after the node was inserted and the node stays behind as an orphan')
+        if not ids_ok:
+            rep.violation('R10', loc(apg10.module, first), f'ABCPropertyGraph.{w}', 'nested node ids not verified before the insertion',
+                          f'{w} inserts the element and then its nested elements ({sorted(need)}) one by one; a nested node id that is already in use '
+                          f'is refused at that point, after the element and the earlier nested elements were inserted, and they stay in the model')
 
     # ---- R9: what a step created is on the undo list before the next step can fail ----
     rep.rule('R9', 'in a compensated body every created element is recorded for the rollback before the next step that can fail', floor=2)
@@ -645,6 +738,10 @@ def _compensated(st, fn):
 
 UNS = 'fim/user/network_service.py'
 MUTANTS = [
+    {'name': 'deep-writer-parent-not-probed', 'file': 'fim/graph/abc_property_graph.py', 'rule': 'R10',
+     'find': "            # raises if the parent is not in the graph\n            self.get_node_properties(node_id=parent_node_id)\n", 'replace': "            pass\n"},
+    {'name': 'deep-writer-ids-not-probed', 'file': 'fim/graph/abc_property_graph.py', 'rule': 'R10',
+     'find': "        ids = self._sliver_tree_ids(sliver)\n", 'replace': "        ids = [sliver.node_id]\n"},
     {'name': 'node-set-properties-after-add', 'file': 'fim/user/node.py', 'rule': 'R1',
      'find': '            sliver.set_properties(**kwargs)\n            self.topo.graph_model.add_network_node_sliver(sliver=sliver)',
      'replace': '            self.topo.graph_model.add_network_node_sliver(sliver=sliver)\n            sliver.set_properties(**kwargs)'},
